@@ -134,6 +134,13 @@ func probeFlight(p flightArg) (string, string) {
 	if err := g.UnmarshalText(ta); err != nil || g != a {
 		return "text_overwritten_by_later_call", fmt.Sprintf("the text kept from a.MarshalText() parses to %v, %v after later calls; want %v", g, err, a)
 	}
+	// the caller may write into a returned slice: later calls must not be affected by that
+	defer mc.Scribble(ta, tb, fa, fb)()
+	ta2, _ := a.MarshalText()
+	fb2, _ := uu.DefaultFormatter(nil, b, uu.FormatURN)
+	if string(ta2) != wa || string(fb2) != "urn:uuid:"+wb || a.String() != wa || b.URN() != "urn:uuid:"+wb {
+		return "text_affected_by_caller_writing_into_earlier_result", fmt.Sprintf("after the caller overwrote earlier results: MarshalText = %q (want %q), DefaultFormatter(URN) = %q, String = %q, URN = %q", ta2, wa, fb2, a.String(), b.URN())
+	}
 	return "", ""
 }
 
